@@ -54,6 +54,7 @@ def run(ctx):
             recover(ctx, f, c, e.node, f'{e.kind} {norm(e.node)[:40]}', committer, arr_app)
     d5_cache(ctx, ctx.repo.cls('Array'), committer)   # D4
     d4_rewrite_keeps_keys(ctx)
+    d4_reader_returns_whole_descriptor(ctx)
     from ._shared import opener_branch_agreement
     opener_branch_agreement(ctx, 'D5')
     d5_tables(ctx)
@@ -103,6 +104,129 @@ def d4_rewrite_keeps_keys(ctx):
                               f'after the first append/truncate')
     else:
         ctx.assume('R-TABLE', 'D1', ui, wr[0], construct, inst, detail=f'written dictionary is `{norm(src)[:50]}`')
+
+
+def _binds_name(st, name):
+    if isinstance(st, ast.Assign):
+        return any(isinstance(t, ast.Name) and t.id == name for t in st.targets)
+    if isinstance(st, ast.AnnAssign):
+        return isinstance(st.target, ast.Name) and st.target.id == name
+    return False
+
+
+def _dict_provenance(ctx, func, expr, source_call, depth=0):
+    """What a returned dictionary is, relative to the dictionary `source_call` produced:
+    ('whole', None) the object itself or a full copy; ('subset', keys) a projection on literal keys; ('unknown', why)."""
+    if depth > 5 or expr is None:
+        return ('unknown', 'too deep')
+    if expr is source_call:
+        return ('whole', None)
+    if isinstance(expr, ast.Name):
+        if expr.id in func.params and source_call is None:
+            return ('whole', None)
+        ds = [v for v, st in defs_of(func.node, expr.id) if _binds_name(st, expr.id)]
+        if not ds:
+            return ('unknown', f'`{expr.id}` has no definition')
+        res = [_dict_provenance(ctx, func, v, source_call, depth + 1) for v in ds]
+        if all(r[0] == 'whole' for r in res):
+            return ('whole', None)
+        sub = [r for r in res if r[0] == 'subset']
+        if sub:
+            return sub[0]
+        return res[0]
+    if isinstance(expr, ast.Call):
+        d = dotted(expr.func) or ''
+        if d in ('dict', 'copy.copy', 'copy.deepcopy') and len(expr.args) == 1 and not expr.keywords:
+            return _dict_provenance(ctx, func, expr.args[0], source_call, depth + 1)
+        if isinstance(expr.func, ast.Attribute) and expr.func.attr == 'copy' and not expr.args:
+            return _dict_provenance(ctx, func, expr.func.value, source_call, depth + 1)
+        tg = [t for k, t in ctx.R.resolve_call(expr, func) if k == 'repo']
+        if len(tg) == 1 and expr.args:
+            callee = tg[0]
+            ps = [p_ for p_ in callee.params if p_ != 'self']
+            inner = _dict_provenance(ctx, func, expr.args[0], source_call, depth + 1)
+            if inner[0] != 'whole' or not ps:
+                return inner
+            rets = [r.value for r in own_nodes(callee.node) if isinstance(r, ast.Return)]
+            res = []
+            for r in rets:
+                res.append(_param_provenance(ctx, callee, r, ps[0], depth + 1))
+            if res and all(r[0] == 'whole' for r in res):
+                return ('whole', None)
+            sub = [r for r in res if r[0] == 'subset']
+            return sub[0] if sub else (res[0] if res else ('unknown', 'helper returns nothing'))
+        return ('unknown', f'`{norm(expr)[:40]}`')
+    if isinstance(expr, ast.Dict) and any(k is None for k in expr.keys):
+        stars = [v for k, v in zip(expr.keys, expr.values) if k is None]
+        return _dict_provenance(ctx, func, stars[0], source_call, depth + 1)
+    if isinstance(expr, (ast.DictComp, ast.Dict)):
+        return ('subset', _literal_keys(func, expr))
+    return ('unknown', f'`{norm(expr)[:40]}`')
+
+
+def _param_provenance(ctx, func, expr, param, depth):
+    """Same question inside a helper, relative to its parameter."""
+    if isinstance(expr, ast.Name) and expr.id == param and not [1 for v, st in defs_of(func.node, param)
+                                                                if _binds_name(st, param)]:
+        return ('whole', None)
+    if isinstance(expr, ast.Name):
+        ds = [v for v, st in defs_of(func.node, expr.id) if _binds_name(st, expr.id)]
+        res = [_param_provenance(ctx, func, v, param, depth + 1) for v in ds] if depth < 6 else []
+        if res and all(r[0] == 'whole' for r in res):
+            return ('whole', None)
+        sub = [r for r in res if r[0] == 'subset']
+        return sub[0] if sub else (res[0] if res else ('unknown', f'`{expr.id}`'))
+    if isinstance(expr, ast.Call):
+        d = dotted(expr.func) or ''
+        if d in ('dict', 'copy.copy', 'copy.deepcopy') and len(expr.args) == 1 and not expr.keywords:
+            return _param_provenance(ctx, func, expr.args[0], param, depth + 1)
+        if isinstance(expr.func, ast.Attribute) and expr.func.attr == 'copy' and not expr.args:
+            return _param_provenance(ctx, func, expr.func.value, param, depth + 1)
+    if isinstance(expr, ast.Dict) and any(k is None for k in expr.keys):
+        stars = [v for k, v in zip(expr.keys, expr.values) if k is None]
+        return _param_provenance(ctx, func, stars[0], param, depth + 1)
+    if isinstance(expr, (ast.DictComp, ast.Dict)):
+        return ('subset', _literal_keys(func, expr))
+    return ('unknown', f'`{norm(expr)[:40]}`')
+
+
+def _literal_keys(func, expr):
+    if isinstance(expr, ast.Dict):
+        return {k.value for k in expr.keys if isinstance(k, ast.Constant)}
+    it = expr.generators[0].iter if expr.generators else None
+    from ..pathcond import inline as _inl
+    try:
+        return set(ast.literal_eval(_inl(func, it)))
+    except Exception:
+        return None
+
+
+def d4_reader_returns_whole_descriptor(ctx):
+    """`_update_arrayinfo` writes back what the descriptor reader returned: the reader must hand out the dictionary that
+    was parsed from the file (itself or a full copy, keys may be added or normalised), not a projection on the keys the
+    class happens to need — otherwise the first append/truncate drops the other keys from arraydescription.json."""
+    A = ctx.repo.cls('Array')
+    readers = []
+    for f in A.all_funcs():
+        for n, cal in ctx.E.callees(f):
+            if cal.qualname == 'DataDir.read_jsondict' and isinstance(n, ast.Call):
+                readers.append((f, n))
+    if len(readers) != 1:
+        raise AnalysisError(f'descriptor reader not identifiable: {[f.qualname for f, _ in readers]}')
+    f, call = readers[0]
+    rets = [r.value for r in own_nodes(f.node) if isinstance(r, ast.Return) and r.value is not None]
+    inst = f'{f.qualname} returns the dictionary parsed from the file (all keys, {sorted(KEYS)} included)'
+    for r in rets:
+        kind, info = _dict_provenance(ctx, f, r, call)
+        if kind == 'whole':
+            ctx.ok('R-TABLE', 'D1', f, r, 'reader-returns-whole-descriptor', inst)
+        elif kind == 'subset' and info is not None:
+            ctx.decide(KEYS <= set(info), 'R-TABLE', 'D1', f, r, 'reader-returns-whole-descriptor', inst,
+                       detail=f'the reader returns a projection on {sorted(info)}: {sorted(KEYS - set(info))} are dropped, and '
+                              f'_update_arrayinfo writes this dictionary back — after the first append/truncate '
+                              f'arraydescription.json no longer carries them')
+        else:
+            ctx.assume('R-TABLE', 'D1', f, r, 'reader-returns-whole-descriptor', inst, detail=f'provenance not understood: {info}')
 
 
 def _return_dict(func):
